@@ -41,6 +41,10 @@ CHECKS['C18'] = ('Hypothesis @given cooldown frames x metric x level x tails; re
                  'Generated frames incl. the post-analysis colab layout; success of the call, per-date bounds order, counterfactual+pointwise=observed, residuals, last cumulative row vs R8 quantiles.',
                  'Default names for date/period/cost/response; F12 (non-monotone posterior scale) is a recorded finding, any other failure is a violation.', '6 C18')
 
+CHECKS['C19'] = ('Hypothesis @given screening frames (planted noisy geos / outlier cells, custom names and labels) vs set-difference model of the screened data and per-date totals; row-order metamorphic',
+                 'Generated frames; what is removed is compared with what is reported, the aggregated series with totals recomputed from the screened rows, and a permuted copy must give the same report.',
+                 'Full panels; detection power not claimed; documented ValueErrors accepted.', '6 C19')
+
 PENDING = {}
 
 
